@@ -38,6 +38,7 @@ class Tracked:
 
 PRELUDE = '''\
 from typing import Optional, Iterator, Callable, Generator
+from mypy_extensions import trait
 from trk import Tracked
 
 
@@ -92,6 +93,69 @@ class Ctx:
     def __exit__(self, t: object, v: object, tb: object) -> bool:
         self.depth -= 1
         return self.swallow
+
+
+class Holder:
+    def __init__(self) -> None:
+        self.last: Optional["Res"] = None
+        self.count = 0
+
+
+GRAVE: list["Res"] = []
+HOLDER = Holder()
+
+
+class Res:
+    """Native class with __del__. kind 1: resurrects itself into the module-level list GRAVE; 2: into an attribute
+    of the long-lived HOLDER; 3: raises; otherwise only touches its own state."""
+
+    def __init__(self, x: Tracked, kind: int) -> None:
+        self.x = x
+        self.kind = kind
+        self.n = 0
+        self.done = False
+
+    def __del__(self) -> None:
+        self.n += 1
+        if self.done:
+            return
+        self.done = True
+        if self.kind == 1:
+            GRAVE.append(self)
+        elif self.kind == 2:
+            HOLDER.last = self
+            HOLDER.count += 1
+        elif self.kind == 3:
+            raise Boom("del")
+
+    def ping(self) -> Tracked:
+        self.n += 1
+        return self.x
+
+
+class SubRes(Res):
+    def __init__(self, x: Tracked, kind: int, y: Tracked) -> None:
+        super().__init__(x, kind)
+        self.y = y
+
+    def __del__(self) -> None:
+        self.y = self.x
+        super().__del__()
+
+
+@trait
+class Fin:
+    def __del__(self) -> None:
+        HOLDER.count += 1
+
+
+class TFin(Fin):
+    def __init__(self, x: Tracked) -> None:
+        self.x = x
+
+
+def keep(lit: bytes, y: object) -> bytes:
+    return lit
 
 '''
 
@@ -280,10 +344,9 @@ class FnGen:
             if c == "cat":
                 return "%s + %s" % (self.expr(S, depth + 1), st.choice(['"x"', '"yz"', "str(m)"]))
             if c == "fmt":
-                # (known finding fenced off: str()/f-string of an int that may be a boxed big int leaks a reference)
-                return 'f"{%s}-{%s}"' % (st.choice(self.vars_of(S)), st.choice(["m", "len(l)"]))
+                return 'f"{%s}-{%s}"' % (st.choice(self.vars_of(S)), st.choice(self.vars_of(I) + ["m", "len(l)"]))
             if c == "stri":
-                return "str(%s)" % st.choice(["m", "len(l)", "m + 1", "len(d)"])
+                return "str(%s)" % st.choice(["m", "len(l)", "n", "n + 1", st.choice(self.vars_of(I))])
             if c == "lit":
                 return st.choice(['"lit"', '"k0"', '""'])
             if c == "upper":
@@ -393,7 +456,7 @@ class FnGen:
         st = self.st
         self.budget -= 1
         alts = [("assign", 8), ("reassign", 7), ("if", 6), ("for", 4), ("range", 2), ("while", 1), ("try", 5), ("raise", 2), ("mutate", 6),
-                ("unpack", 2), ("maybe", 3), ("gen", 3), ("closure", 2), ("with", 2), ("shape", 3), ("augs", 1)]
+                ("unpack", 2), ("maybe", 3), ("gen", 3), ("closure", 2), ("with", 2), ("shape", 3), ("augs", 1), ("bigdisplay", 4), ("finalizer", 4)]
         if last and not self.in_finally:
             alts += [("return", 3)]
             if self.brk:
@@ -546,11 +609,7 @@ class FnGen:
             elif k == 4:
                 self.grow(ind, nd + ".items", "%s.items.append(%s)" % (nd, self.expr(T, 1)), "list-append")
             elif k == 5:
-                # known finding fenced off: a list store that raises IndexError leaks the stored value
-                # (replays/C06/known-list-setitem-out-of-range.json); generated stores are always in range
-                ix = st.choice([0, 0, 1, 2])
-                self.emit(ind, "if len(%s) > %d:" % (l, ix), "guard")
-                self.emit(ind + 1, "%s[%d] = %s" % (l, st.choice([ix, ix, -1]), self.expr(T, 1)), "list-setitem")
+                self.emit(ind, "%s[%s] = %s" % (l, st.choice(["0", "0", "1", "-1", "7"]), self.expr(T, 1)), "list-setitem")
             elif k == 6:
                 self.emit(ind, "%s.pop()" % l, "list-pop")
             elif k == 7:
@@ -700,6 +759,78 @@ class FnGen:
             if st.chance(1, 2):
                 self.emit(ind, "nd.val = %s.get(m)" % cv, "shape-get")
             return False
+        if c == "bigdisplay":
+            # one build op that steals the same value several times: 10-14 items (the list builder switches to a single
+            # all-stealing call at 10), a LOCAL that is dead afterwards repeated >= 2 times, mixed with other objects
+            self.nvar += 1
+            t = "bt%d" % self.nvar
+            self.emit(ind, "%s = Tracked(%d)" % (t, st.below(100)), "assign:T")
+            n_items = 10 + st.below(5)
+            pool_ = [t, t, t, "Tracked(%d)" % st.below(100), self.expr(T, 2), st.choice(self.vars_of(T)), st.choice(self.vars_of(T)), "a", "b"]
+            items = [st.choice(pool_) for _ in range(n_items)]
+            for pos in (st.below(n_items), st.below(n_items), st.below(n_items)):
+                items[pos] = t
+            form = st.below(5)
+            if form == 0:
+                self.tags.add("big-display:list")
+                self.emit(ind, "nd.items = [%s]" % ", ".join(items), "big-display:list")
+            elif form == 1:
+                self.tags.add("big-display:list")
+                v = self.fresh(LT)
+                self.emit(ind, "%s = [%s]" % (v, ", ".join(items)), "big-display:list")
+                self.emit(ind, "nd.items = %s" % v, "attr-set")
+                self.env[v] = LT
+            elif form == 2:
+                self.tags.add("big-display:tuple")
+                self.nvar += 1
+                v = "tb%d" % self.nvar
+                self.emit(ind, "%s = (%s)" % (v, ", ".join(items)), "big-display:tuple")
+                self.emit(ind, "nd.items = list(%s)" % v, "attr-set")
+            elif form == 3:
+                self.tags.add("big-display:set")
+                self.nvar += 1
+                v = "sb%d" % self.nvar
+                self.emit(ind, "%s = {%s}" % (v, ", ".join(items)), "big-display:set")
+                self.emit(ind, "nd.items = list(%s)" % v, "attr-set")
+            else:
+                self.tags.add("big-display:dict")
+                self.nvar += 1
+                v = "db%d" % self.nvar
+                self.emit(ind, "%s = {%s}" % (v, ", ".join('"g%d": %s' % (q, it) for q, it in enumerate(items))), "big-display:dict")
+                self.emit(ind, "d.update(%s)" % v, "dict-update")
+            return False
+        if c == "finalizer":
+            self.nvar += 1
+            rv = "rv%d" % self.nvar
+            kind = st.choice([0, 1, 1, 2, 2, 3])
+            cls = st.weighted([("Res", 5), ("SubRes", 2), ("TFin", 1)])
+            self.tags.add("finalizer:" + {"TFin": "trait", "SubRes": "subclass"}.get(cls, {0: "plain", 1: "resurrect-list", 2: "resurrect-attr", 3: "raises"}[kind]))
+            x = self.expr(T, 1)
+            ctor = {"Res": "Res(%s, %d)" % (x, kind), "SubRes": "SubRes(%s, %d, %s)" % (x, kind, st.choice(self.vars_of(T))), "TFin": "TFin(%s)" % x}[cls]
+            how = st.below(3)
+            if how == 0:
+                self.emit(ind, ctor, "finalizer-drop")  # dropped at once: the refcount path runs __del__
+            elif how == 1:
+                self.emit(ind, "%s = %s" % (rv, ctor), "finalizer-create")
+                self.emit(ind, "%s = %s" % (rv, {"Res": "Res(a, 0)", "SubRes": "SubRes(a, 0, b)", "TFin": "TFin(a)"}[cls]), "finalizer-drop")
+            else:
+                self.emit(ind, "[%s, %s].clear()" % (ctor, {"Res": "Res(b, %d)" % kind, "SubRes": "SubRes(b, %d, a)" % kind, "TFin": "TFin(b)"}[cls]), "finalizer-drop")
+            # keep allocating, so that a wrongly freed block would be reused, then use the survivors
+            self.nvar += 1
+            self.emit(ind, "ch%d = [Node(Tracked(i), None) for i in range(%d)]" % (self.nvar, 3 + st.below(6)), "alloc-churn")
+            if st.chance(2, 3):
+                self.emit(ind, "if len(GRAVE) > 0:", "if")
+                self.emit(ind + 1, "nd.val = GRAVE[-1].ping()", "finalizer-survivor")
+                if st.chance(1, 2):
+                    self.emit(ind + 1, "GRAVE[0].x = %s" % st.choice(self.vars_of(T)), "finalizer-survivor")
+            if st.chance(1, 2):
+                self.nvar += 1
+                hl = "hl%d" % self.nvar
+                self.emit(ind, "%s = HOLDER.last" % hl, "finalizer-survivor")
+                self.emit(ind, "if %s is not None:" % hl, "if")
+                self.emit(ind + 1, "nd.val = %s.ping()" % hl, "finalizer-survivor")
+                self.emit(ind + 1, "n = n + %s.n + HOLDER.count" % hl, "finalizer-survivor")
+            return False
         if c == "augs":
             k = st.below(3)
             if k == 0:
@@ -761,6 +892,7 @@ class ModGen:
             ("yield-in-try-finally", ["try:", "    for x in xs:", "        yield x", "finally:", "    if xs:", "        xs[0] = Tracked(%d)" % k]),
             ("acc-early-return", ["acc = [Tracked(1)]", "for x in xs:", "    acc.append(x)", "    yield acc[-1]", "    if m == %d:" % k, "        return"]),
             ("yield-in-try-except", ["for x in xs:", "    try:", "        yield chk(m, %d, x)" % k, "    except Boom:", "        if xs:", "            xs[0] = x", "        raise"]),
+            ("temp-across-yield", ["for x in xs:", '    got = keep(b"spilled-bytes-literal-%d", (yield x))' % k, "    if len(got) == %d:" % k, "        return"]),
             # known finding fenced off: a `yield` inside an `except` block (abandoning the generator there leaves the
             # handled exception set in the caller: replays/C06/known-gen-abandoned-in-except.json)
         ]
